@@ -302,3 +302,133 @@ func WireOHdr(out []int64, ps []OutTerm) []int64 {
 	}
 	return out
 }
+
+// ServerSigCands: what a signature emitted by server key `key` at hostname atom
+// `host` may be over, given the values of the incoming header.
+func (w *World) ServerSigCands(key uint64, host uint64, items []Item) []SigCand {
+	var chals, cpks []Term
+	chals = append(chals, Empty())
+	for _, it := range items {
+		if it.Name == "challenge-server" {
+			chals = append(chals, w.RawTerm(it.Val.Raw))
+		}
+		if it.Val.Dec != nil {
+			cpks = append(cpks, *it.Val.Dec)
+			if it.Val.Dec.Tag == TPair {
+				if s, ok := DecState(*it.Val.Dec.M); ok && s.Cpk != nil {
+					cpks = append(cpks, *s.Cpk)
+				}
+			}
+		}
+	}
+	var cs []SigCand
+	for _, c := range chals {
+		for _, p := range cpks {
+			cs = append(cs, SigCand{Key: key, Msg: MsgServer(c, p, Atom(host))})
+		}
+	}
+	return cs
+}
+
+// AbstractServerOut describes a header a real server emitted in answer to `items`.
+func (w *World) AbstractServerOut(hdr string, key, host uint64, items []Item) ([]OutTerm, bool) {
+	ps, ok := SplitEmitted(hdr)
+	if !ok {
+		return nil, false
+	}
+	var out []OutTerm
+	for _, p := range ps {
+		var t Term
+		switch ParamNames[p.Name] {
+		case "challenge-client", "challenge-server":
+			t = w.RawTerm(p.Raw)
+		case "public-key":
+			pv := w.PVRaw(p.Raw)
+			if pv.Dec == nil {
+				return nil, false
+			}
+			t = *pv.Dec
+		case "sig":
+			b, err := base64.URLEncoding.DecodeString(p.Raw)
+			if err != nil {
+				return nil, false
+			}
+			t = w.AbstractSig(b, w.ServerSigCands(key, host, items))
+		default: // opaque, bearer
+			b, err := base64.URLEncoding.DecodeString(p.Raw)
+			if err != nil {
+				return nil, false
+			}
+			t = w.AbstractBlob(b)
+		}
+		out = append(out, OutTerm{Name: p.Name, T: t})
+	}
+	return out, true
+}
+
+// AbstractClientOut describes a header a real client (key ckey, hostname atom
+// host) emitted after having seen `seen`.
+func (w *World) AbstractClientOut(hdr string, ckey, host uint64, seen []Item) ([]OutTerm, bool) {
+	ps, ok := SplitEmitted(hdr)
+	if !ok {
+		return nil, false
+	}
+	var out []OutTerm
+	for _, p := range ps {
+		var t Term
+		switch ParamNames[p.Name] {
+		case "public-key":
+			pv := w.PVRaw(p.Raw)
+			if pv.Dec == nil {
+				return nil, false
+			}
+			t = *pv.Dec
+		case "sig":
+			b, err := base64.URLEncoding.DecodeString(p.Raw)
+			if err != nil {
+				return nil, false
+			}
+			chals := []Term{Empty()}
+			for _, it := range seen {
+				if it.Name == "challenge-client" {
+					chals = append(chals, w.RawTerm(it.Val.Raw))
+				}
+			}
+			var cs []SigCand
+			for _, c := range chals {
+				for k := range w.Keys {
+					cs = append(cs, SigCand{Key: ckey, Msg: MsgClient(c, Pub(uint64(k)), Atom(host))})
+				}
+			}
+			t = w.AbstractSig(b, cs)
+		default: // challenge-server (own), opaque / bearer (echoed raw)
+			t = w.RawTerm(p.Raw)
+		}
+		out = append(out, OutTerm{Name: p.Name, T: t})
+	}
+	return out, true
+}
+
+// ItemsOfEmitted turns a header the real code built into items (the values
+// must have been abstracted before, so that their decoded terms are known).
+func (w *World) ItemsOfEmitted(hdr string) ([]Item, bool) {
+	ps, ok := SplitEmitted(hdr)
+	if !ok {
+		return nil, false
+	}
+	var items []Item
+	for _, p := range ps {
+		items = append(items, Item{Name: ParamNames[p.Name], Val: w.PVRaw(p.Raw)})
+	}
+	return items, true
+}
+
+func ValsOf(items []Item) []PVal {
+	var vs []PVal
+	for _, it := range items {
+		if it.Name != "" {
+			vs = append(vs, it.Val)
+		}
+	}
+	return vs
+}
